@@ -27,7 +27,8 @@ type tmAdapter struct {
 	ins     func(k int)
 	del     func(k int) // the oldest live key
 	observe func(live []int, future int) *Viol
-	ordered bool // live keys are observed in ascending order (else: insertion order = ascending here as well)
+	ordered bool            // live keys are observed in ascending order (else: insertion order = ascending here as well)
+	iter    func() *IterDyn // a fresh iterator (nil: none)
 }
 
 func seqEq(got []int, want []int) bool {
@@ -92,7 +93,7 @@ func treadmillAdapter(c string, j Job) *tmAdapter {
 		sys.NoCount = true
 		a := sys.newBox().a
 		rev := j.s("cmp", "nat") == "rev"
-		return &tmAdapter{name: sys.Name(), ins: func(k int) { a.put(k, Val(k*10)) }, del: func(k int) { a.remove(k) },
+		return &tmAdapter{name: sys.Name(), iter: a.iter, ins: func(k int) { a.put(k, Val(k*10)) }, del: func(k int) { a.remove(k) },
 			observe: func(live []int, future int) *Viol {
 				want := append([]int{}, live...)
 				if rev {
@@ -183,7 +184,7 @@ func treadmillAdapter(c string, j Job) *tmAdapter {
 			// inverse entry (a map that re-organises itself after k deletions meets the k-th inside such a Put)
 			ins = func(k int) { a.put(k, -k-5000000); a.put(k, -k-7000000); a.put(k, -k) }
 		}
-		return &tmAdapter{name: sys.Name(), ins: ins, del: func(k int) { a.remove(k) },
+		return &tmAdapter{name: sys.Name(), iter: a.iter, ins: ins, del: func(k int) { a.remove(k) },
 			observe: func(live []int, future int) *Viol {
 				if a.size() != len(live) {
 					if x := keep(viol(p("C10", "C01", "C15"), "mismatch", "Size() = %d, %d pairs are live", a.size(), len(live))); x != nil {
@@ -228,7 +229,7 @@ func treadmillAdapter(c string, j Job) *tmAdapter {
 	case "hashset", "linkedhashset", "treeset":
 		sys := intSetSys(c, "nat", 4)
 		a := sys.newAPI()
-		return &tmAdapter{name: sys.Name(), ins: func(k int) { a.add(k) }, del: func(k int) { a.remove(k) },
+		return &tmAdapter{name: sys.Name(), iter: a.iter, ins: func(k int) { a.add(k) }, del: func(k int) { a.remove(k) },
 			observe: func(live []int, future int) *Viol {
 				if a.size() != len(live) {
 					if x := keep(viol(p("C04", "C15"), "mismatch", "Size() = %d, %d members", a.size(), len(live))); x != nil {
@@ -272,7 +273,7 @@ func treadmillAdapter(c string, j Job) *tmAdapter {
 		sys := scalarHeapSys[int](c, "min", 8, intRange(0, 3), -99, 0)
 		b := sys.newBox()
 		a := b.a
-		return &tmAdapter{name: sys.Name(), ins: func(k int) { a.push(k) }, del: func(k int) { a.pop() },
+		return &tmAdapter{name: sys.Name(), iter: a.iter, ins: func(k int) { a.push(k) }, del: func(k int) { a.pop() },
 			observe: func(live []int, future int) *Viol {
 				if a.size() != len(live) {
 					if x := keep(viol(p("C06", "C15"), "mismatch", "Size() = %d, %d elements", a.size(), len(live))); x != nil {
@@ -308,7 +309,7 @@ func treadmillAdapter(c string, j Job) *tmAdapter {
 	case "arraylist", "singlylinkedlist", "doublylinkedlist":
 		sys := intListSys(c, 8, 3)
 		a := sys.newAPI()
-		return &tmAdapter{name: sys.Name(), ins: func(k int) { a.add(k) }, del: func(k int) { a.remove(0) },
+		return &tmAdapter{name: sys.Name(), iter: a.iter, ins: func(k int) { a.add(k) }, del: func(k int) { a.remove(0) },
 			observe: func(live []int, future int) *Viol {
 				vals := a.values()
 				if a.size() != len(live) || !seqEq(vals, live) {
@@ -339,7 +340,7 @@ func treadmillAdapter(c string, j Job) *tmAdapter {
 	case "arrayqueue", "linkedlistqueue", "circularbuffer":
 		sys := &SeqSys[int]{Kind: c, Cap: 16, N: 8, Poison: -99, U: intU(3)}
 		a := sys.newBox().a
-		return &tmAdapter{name: sys.Name(), ins: func(k int) { a.push(k) }, del: func(k int) { a.pop() },
+		return &tmAdapter{name: sys.Name(), iter: a.iter, ins: func(k int) { a.push(k) }, del: func(k int) { a.pop() },
 			observe: func(live []int, future int) *Viol {
 				vals := a.values()
 				if a.size() != len(live) || !seqEq(vals, live) {
@@ -418,8 +419,47 @@ func treadmillJob(j Job, r *JobResult) {
 			}
 		}
 	}
+	// an iterator obtained at an observation, left resting on the last (then on the first) element while the
+	// gap passes, and moved afterwards: nothing is required of what it yields (the container was modified),
+	// only that every call returns (C17)
+	var held *IterDyn
+	heldAtLast := true
+	useHeld := func(g int) bool {
+		if held == nil {
+			return false
+		}
+		v := safeCheck(func() *Viol {
+			budget := 64
+			pred := func(a, b any) bool { budget--; return budget < 0 }
+			for _, f := range []func() bool{held.Next, held.Next, held.Prev, held.Prev, held.First, held.Next, held.Last} {
+				if f == nil {
+					continue
+				}
+				if f() {
+					held.Cur()
+				}
+			}
+			if held.NextTo != nil {
+				held.Begin()
+				if held.NextTo(pred) {
+					held.Cur()
+				}
+			}
+			return nil
+		}, []string{"C17", "C08"}, "an iterator kept across the unobserved modifications")
+		if v != nil && v.Has(j.Prop) {
+			v.Msg = fmt.Sprintf("%s: an iterator resting on an element while %d modifications pass, moved afterwards: %s", ad.name, g, v.Msg)
+			r.Found = &Found{V: v, Calls: []string{"sliding window history with a kept iterator (treadmill.go)"}}
+			r.St.Exhaustive = false
+			return true
+		}
+		return false
+	}
 	observe := func(g int, nextGap int) bool {
 		inflightSeq.Add(1)
+		if useHeld(g) {
+			return true
+		}
 		fut := futureKey(nextGap)
 		v := safeCheck(func() *Viol { return ad.observe(append([]int{}, live...), fut) }, []string{j.Prop}, "observers")
 		if v == nil && j.Prop == "C17" {
@@ -427,6 +467,15 @@ func treadmillJob(j Job, r *JobResult) {
 		}
 		r.St.States++
 		r.St.Nested["observations"]++
+		if v == nil && ad.iter != nil {
+			held = ad.iter()
+			heldAtLast = !heldAtLast
+			if heldAtLast && held.Last != nil {
+				held.Last()
+			} else {
+				held.First()
+			}
+		}
 		if v != nil && v.Has(j.Prop) {
 			v.Msg = fmt.Sprintf("%s: a window of %d keys sliding upwards, %d modifications in all, the last %d of them without any observer call in between: %s", ad.name, w, r.St.Transitions, g, v.Msg)
 			r.Found = &Found{V: v, Calls: []string{fmt.Sprintf("insert 0..%d, then alternately remove the oldest / insert the next key; observers called after gaps of %v modifications", w-1, gaps)}}
